@@ -305,11 +305,12 @@ func main() {
 	// the send-and-receive patterns, with the boundary payload (nothing at all, given as --data "" or as an empty file):
 	// macat sends it once (no --interval) and then receives until --recv-timeout
 	type srCase struct {
-		pat  string
-		data []byte
-		file bool
-		got  [][]byte
-		err  string
+		pat   string
+		data  []byte
+		file  bool
+		count int // > 1: --count N --send-interval 50ms and NO --recv-timeout, against a peer that never answers
+		got   [][]byte
+		err   string
 	}
 	var srs []*srCase
 	for _, pat := range []string{"pair", "bus", "star", "push", "pub"} {
@@ -319,8 +320,13 @@ func main() {
 					d[j] = 'z'
 				}
 			}
-			srs = append(srs, &srCase{pat: pat, data: d, file: k == 1})
+			srs = append(srs, &srCase{pat: pat, data: d, file: k == 1, count: 1})
 		}
+	}
+	// repeated sends on the send-and-receive patterns: the wait for an answer is capped by the send interval whether or not a
+	// receive timeout was given; the peer stays silent and macat still sends the requested number of times and ends
+	for _, pat := range []string{"pair", "bus", "star"} {
+		srs = append(srs, &srCase{pat: pat, data: []byte("ping"), count: 3})
 	}
 	for i, sc := range srs {
 		wg.Add(1)
@@ -341,6 +347,9 @@ func main() {
 				return
 			}
 			args := []string{"--" + sc.pat, "--connect", a, "--recv-timeout", "1", "--send-delay", "0"}
+			if sc.count > 1 {
+				args = []string{"--" + sc.pat, "--connect", a, "--send-delay", "0", "--count", fmt.Sprint(sc.count), "--send-interval", "50ms"}
+			}
 			if sc.pat == "push" || sc.pat == "pub" {
 				args = append(args, "--count", "1")
 			}
@@ -381,7 +390,7 @@ func main() {
 			fmt.Fprintf(os.Stderr, "c20: send/recv case %s error: %s\n", sc.pat, sc.err)
 			ms = append(ms, `"ff"`, `"ff"`, `"ff"`)
 		}
-		ditems = append(ditems, fmt.Sprintf("(1%%nat, %s, %s) (* --%s %s *)", coqgen.Hex(sc.data), coqgen.List(ms), sc.pat, map[bool]string{true: "--file", false: "--data"}[sc.file]))
+		ditems = append(ditems, fmt.Sprintf("(%d%%nat, %s, %s) (* --%s %s *)", sc.count, coqgen.Hex(sc.data), coqgen.List(ms), sc.pat, map[bool]string{true: "--file", false: "--data"}[sc.file]))
 	}
 	for _, sc := range sends {
 		var ms []string
